@@ -44,7 +44,8 @@ func strp(s string) *string { return &s }
 
 func c13Judge(c c13Case, w ast.Word) (class, detail string, nontrivial bool) {
 	// real
-	env := interp.NewExecEnv(c.Args[0], c.Args[1:]...)
+	given := append([]string{}, c.Args...)
+	env := interp.NewExecEnv(given[0], given[1:]...)
 	env.Opts = interp.NoGlob
 	if c.Nounset {
 		env.Opts |= interp.NoUnset
@@ -85,6 +86,10 @@ func c13Judge(c c13Case, w ast.Word) (class, detail string, nontrivial bool) {
 		}
 	}
 	varsEq := reflect.DeepEqual(gotVars, st.vars)
+	// positional parameters can be read but not assigned: neither the environment's nor the caller's slice changes
+	if !reflect.DeepEqual(env.Args, c.Args) || !reflect.DeepEqual(given, c.Args) {
+		return "positional-parameters-modified", fmt.Sprintf("Expand(%s) changed the positional parameters: %q (caller's slice %q), they were %q", c.Src, env.Args, given, c.Args), true
+	}
 	if merr != nil {
 		nontrivial = true
 		switch {
